@@ -61,13 +61,13 @@ def rodrigues(c, s, n, p):
 
 def register(Rg: Registry):
     Rg.add(
-        f"{UT}:translate3d", prop="C12",
+        pure_inline=True, key=f"{UT}:translate3d", prop="C12",
         setup=lambda S: dict(tx=S.real("tx"), ty=S.real("ty"), tz=S.real("tz"), **point(S)),
         ensures=[("shape-4x4", shape44), ("homogeneous-last-row", affine_row),
                  ("moves-every-point-by-t", maps_to(lambda E, v, p: [p[0] + R(v["tx"]), p[1] + R(v["ty"]), p[2] + R(v["tz"])]))],
     )
     Rg.add(
-        f"{UT}:scale3d", prop="C12",
+        pure_inline=True, key=f"{UT}:scale3d", prop="C12",
         setup=lambda S: dict(sx=S.real("sx"), sy=S.real("sy"), sz=S.real("sz"), **point(S)),
         ensures=[("shape-4x4", shape44), ("homogeneous-last-row", affine_row),
                  ("scales-per-axis", maps_to(lambda E, v, p: [p[0] * R(v["sx"]), p[1] * R(v["sy"]), p[2] * R(v["sz"])]))],
@@ -79,19 +79,19 @@ def register(Rg: Registry):
 
     # right-handed: z-axis turns e_x towards e_y, x-axis e_y towards e_z, y-axis e_z towards e_x
     Rg.add(
-        f"{UT}:rotate3d_z", prop="C12",
+        pure_inline=True, key=f"{UT}:rotate3d_z", prop="C12",
         setup=lambda S: dict(theta=S.real("theta"), **point(S)),
         ensures=[("shape-4x4", shape44), ("homogeneous-last-row", affine_row),
                  ("right-handed-about-z", maps_to(lambda E, v, p: (lambda c, s: [c * p[0] - s * p[1], s * p[0] + c * p[1], p[2]])(*cs(E, v))))],
     )
     Rg.add(
-        f"{UT}:rotate3d_x", prop="C12",
+        pure_inline=True, key=f"{UT}:rotate3d_x", prop="C12",
         setup=lambda S: dict(theta=S.real("theta"), **point(S)),
         ensures=[("shape-4x4", shape44), ("homogeneous-last-row", affine_row),
                  ("right-handed-about-x", maps_to(lambda E, v, p: (lambda c, s: [p[0], c * p[1] - s * p[2], s * p[1] + c * p[2]])(*cs(E, v))))],
     )
     Rg.add(
-        f"{UT}:rotate3d_y", prop="C12",
+        pure_inline=True, key=f"{UT}:rotate3d_y", prop="C12",
         setup=lambda S: dict(theta=S.real("theta"), **point(S)),
         ensures=[("shape-4x4", shape44), ("homogeneous-last-row", affine_row),
                  ("right-handed-about-y", maps_to(lambda E, v, p: (lambda c, s: [c * p[0] + s * p[2], p[1], -s * p[0] + c * p[2]])(*cs(E, v))))],
@@ -105,8 +105,109 @@ def register(Rg: Registry):
         return dict(n=PList([nx, ny, nz]), theta=S.real("theta"), nx=nx, ny=ny, nz=nz, **point(S))
 
     Rg.add(
-        f"{UT}:rotate3d", prop="C12",
+        pure_inline=True, key=f"{UT}:rotate3d", prop="C12",
         setup=axis_setup,
         ensures=[("shape-4x4", shape44), ("homogeneous-last-row", affine_row),
                  ("rodrigues-right-handed", maps_to(lambda E, v, p: rodrigues(*cs(E, v), (R(v["nx"]), R(v["ny"]), R(v["nz"])), p)))],
     )
+
+
+# ===========================================================================
+# AffineTransform.__call__ / apply, TranslateOrigin.transform
+def _first_root_pos(E, t):
+    from contracts.common import col, nof
+
+    pid = col(t, "pid").arr
+    r = z3.Int(fresh_name("root_pos"))
+    j = z3.Int(fresh_name("j"))
+    E.assume(z3.And(r >= 0, r < nof(t), z3.Select(pid, r) == -1, z3.ForAll([j], z3.Implies(z3.And(j >= 0, j < r), z3.Select(pid, j) != -1))))
+    return r
+
+
+def _M3(tm):
+    it = tm.items
+    return [[R(it[4 * r + c]) for c in range(4)] for r in range(3)]
+
+
+def register_affine(Rg):
+    from contracts.common import col, nof, sym_tree
+
+    def aff_obj(S, center):
+        from swcgeom.transforms.geometry import AffineTransform
+
+        tm = NArr((4, 4), [S.real(f"m{r}{c}") for r in range(4) for c in range(4)], "real")
+        return S.obj(AffineTransform, tm=tm, center=center)
+
+    affine_pre = ("matrix-is-affine", lambda E, v, o: (lambda it: z3.And(R(it[12]) == 0, R(it[13]) == 0, R(it[14]) == 0, R(it[15]) == 1))(v["self"].fields["tm"].items))
+    has_root = ("has-a-root", lambda E, v, o: (lambda t, j: z3.Exists([j], z3.And(j >= 0, j < nof(t), z3.Select(col(t, "pid").arr, j) == -1)))(v["x"], z3.Int(fresh_name("j"))))
+
+    def moved(center):
+        def f(E, v, o):
+            x0, y = o["x"], v["result"]
+            M = _M3(o["self"].fields["tm"])
+            i = z3.Int(fresh_name("i"))
+            n = nof(x0)
+            p = [z3.Select(col(x0, c).arr, i) for c in "xyz"]
+            q = [z3.Select(col(y, c).arr, i) for c in "xyz"]
+            if center == "origin":
+                c0 = [z3.RealVal(0)] * 3
+            else:
+                r = _first_root_pos(E, x0)
+                c0 = [z3.Select(col(x0, c).arr, r) for c in "xyz"]
+            d = [p[k] - c0[k] for k in range(3)]
+            # the stated map about the stated centre: q = A (p - c) + b + c, so the centre
+            # moves by the matrix' own translation part only (fixed for scaling / rotation)
+            exp = [M[k][0] * d[0] + M[k][1] * d[1] + M[k][2] * d[2] + M[k][3] + c0[k] for k in range(3)]
+            return z3.ForAll([i], z3.Implies(z3.And(i >= 0, i < n), z3.And(*[q[k] == exp[k] for k in range(3)])))
+
+        return f
+
+    def untouched(E, v, o):
+        x0, y = o["x"], v["result"]
+        i = z3.Int(fresh_name("i"))
+        n = nof(x0)
+        same = [z3.Select(col(y, c).arr, i) == z3.Select(col(x0, c).arr, i) for c in ("id", "type", "r", "pid")]
+        return z3.And(nof(y) == n, set(y.fields["ndata"].items) == set(x0.fields["ndata"].items), z3.ForAll([i], z3.Implies(z3.And(i >= 0, i < n), z3.And(*same))))
+
+    def result_fresh(E, v, o):
+        y = v["result"]
+        return all(a.uid not in E.entry_uids for a in y.fields["ndata"].items.values()) and y.uid not in E.entry_uids and y.fields["ndata"].uid not in E.entry_uids
+
+    for center in ("origin", "root"):
+        Rg.add(
+            f"{GEO}:AffineTransform.__call__" + ("" if center == "origin" else ""),
+            prop="C12",
+        ) if False else None
+    Rg.add(
+        f"{GEO}:AffineTransform.__call__", prop="C12",
+        variants={
+            "center=origin": lambda S: dict(self=aff_obj(S, "origin"), x=sym_tree(S, "x")),
+            "center=root": lambda S: dict(self=aff_obj(S, "root"), x=sym_tree(S, "x")),
+            "center=soma": lambda S: dict(self=aff_obj(S, "soma"), x=sym_tree(S, "x")),
+        },
+        requires=[affine_pre, has_root],
+        ensures=[("every-node-moved-by-the-stated-map-about-the-stated-centre", lambda E, v, o: moved("origin" if o["self"].fields["center"] == "origin" else "root")(E, v, o)),
+                 ("topology-types-radii-untouched", untouched), ("result-is-fresh", result_fresh)],
+    )
+
+    def to_origin(E, v, o):
+        x0, y = o["x"], v["result"]
+        r = _first_root_pos(E, x0)
+        i = z3.Int(fresh_name("i"))
+        n = nof(x0)
+        return z3.ForAll([i], z3.Implies(z3.And(i >= 0, i < n), z3.And(*[z3.Select(col(y, c).arr, i) == z3.Select(col(x0, c).arr, i) - z3.Select(col(x0, c).arr, r) for c in "xyz"])))
+
+    Rg.add(
+        f"{GEO}:TranslateOrigin.transform", prop="C12",
+        setup=lambda S: dict(cls=__import__("swcgeom.transforms.geometry", fromlist=["x"]).TranslateOrigin, x=sym_tree(S, "x")),
+        requires=[has_root],
+        ensures=[("root-moved-to-origin-rigidly", to_origin), ("topology-types-radii-untouched", untouched), ("result-is-fresh", result_fresh)],
+    )
+
+
+_reg0 = register
+
+
+def register(Rg):  # noqa: F811
+    _reg0(Rg)
+    register_affine(Rg)
